@@ -8,6 +8,7 @@ from vp.runner import Part, Result
 from vp import gen as G
 from vp import invariants as I
 from vp import simprops as SP
+from vp import sim as S
 
 ID = 'C01'
 RULE = ('Hypothesis builds valid powertrains by construction (motor + 1..7 elements: flywheels, spur / helical '
@@ -42,6 +43,8 @@ def check(case) -> Result:
         w = tr.get(mdl.n - 1, 'angular speed')
         a = tr.get(mdl.n - 1, 'angular acceleration')
         moving = moving or bool(np.any((w != 0) & (a != 0)))
+    if case.get('second_life') and err is None and not out:
+        n += _second_life(case, b, out, res)
     seen = set()
     for sig, msg in out:
         if sig not in seen:
@@ -52,6 +55,70 @@ def check(case) -> Result:
     res.classes += (f'len:{mdl.n}', 'worm' if any(e['type'] == 'worm' for e in mdl.elements) else 'no-worm',
                     'self-locking' if mdl.self_locking else 'free', f'history:{len(case["history"])}')
     return res
+
+
+def _second_life(case, b, out, res):
+    """The gear train is kept and the drive is changed: after the history the powertrain is reset and a NEW motor (and,
+    in the 'pinion' variant, a new pinion with another number of teeth) is declared onto the old elements; a new
+    Powertrain and a new Solver simulate it. Every pair must be coupled in the ratios of the chain as it is NOW. In the
+    'motor' variant the first powertrain is then simulated again (both drives share the train; ratios unchanged)."""
+    from vp import model as M
+    sl = case['second_life']
+    chain = case['chain']
+    run = next(op for op in case['history'] if op['op'] == 'run')
+    run = {k: v for k, v in run.items() if k in ('op', 'dt', 'T')}
+    n = 0
+    try:
+        b.powertrain.reset()
+        if sl['kind'] == 'pinion':
+            i = sl['link']                       # element i is the slave of a gear mating with element i - 1
+            pin = dict(chain[i - 2], n_teeth=sl['teeth'], link={'kind': 'joint'})
+            case2 = dict(case, chain=[pin] + chain[i - 1:], history=[run], control=None, stop=None, load2=None,
+                         deepcopy=False, reexpress=None)
+            reuse = {2 + k: b.elements[i + k] for k in range(len(chain) - i + 1)}
+        else:
+            case2 = dict(case, history=[run], control=None, stop=None, load2=None, deepcopy=False, reexpress=None)
+            reuse = {k: b.elements[k] for k in range(1, len(chain) + 1)}
+        b2 = S.build(case2, reuse=reuse)
+        S.run_op(b2, run)
+        tr2 = S.Trace(b2)
+        if I.complete(tr2) and I.finite_trace(tr2):
+            o2 = []
+            n += I.kinematic_coupling(b2.model, tr2, o2)
+            out.extend((sig + '/second-life', 'drive changed, train kept (' + sl['kind'] + '): ' + msg) for sig, msg in o2)
+        res.classes += (f'second-life:{sl["kind"]}',)
+        if sl['kind'] == 'motor' and not out:
+            b2.powertrain.reset()
+            S.apply_initial_conditions(b)
+            S.run_op(b, run)
+            tr3 = S.Trace(b)
+            if I.complete(tr3) and I.finite_trace(tr3):
+                o3 = []
+                n += I.kinematic_coupling(b.model, tr3, o3)
+                out.extend((sig + '/first-drive-again', 'first drive simulated again after the second: ' + msg) for sig, msg in o3)
+            res.classes += ('first-drive-again',)
+    except Exception as e:  # noqa
+        from vp.simprops import by_design
+        res.classes += (f'second-life-raised:{type(e).__name__}',)
+        if not by_design(e):
+            out.append((f'C01/second-life/raises/{type(e).__name__}', f'{sl}: {type(e).__name__}: {e}'))
+    return n
+
+
+@st.composite
+def s_chains(draw, **kw):
+    case = draw(G.s_case_controlled(**kw))
+    if draw(st.integers(0, 3)) == 0:
+        chain = case['chain']
+        links = [k + 1 for k, e in enumerate(chain) if e['link']['kind'] == 'gear' and k >= 1]
+        if links and draw(st.integers(0, 3)) > 0:
+            i = draw(st.sampled_from(links))
+            old = chain[i - 2]['n_teeth']
+            teeth = draw(st.integers(10, 80).filter(lambda z: z != old))
+            case['second_life'] = {'kind': 'pinion', 'link': i, 'teeth': teeth}
+        elif chain[0]['link']['kind'] == 'joint':
+            case['second_life'] = {'kind': 'motor'}
+    return case
 
 
 @st.composite
@@ -70,6 +137,6 @@ def s_held_rerun(draw, max_steps=30):
 
 def parts(tier):
     if tier == 'quick':
-        return [Part('held-reruns', check, strategy=s_held_rerun(), examples=120, shards=4), Part('chains', check, strategy=G.s_case_controlled(max_len=6, max_steps=30, nonmultiple=True), examples=350, shards=4)]
+        return [Part('held-reruns', check, strategy=s_held_rerun(), examples=120, shards=4), Part('chains', check, strategy=s_chains(max_len=6, max_steps=30, nonmultiple=True), examples=350, shards=4)]
     return [Part('held-reruns', check, strategy=s_held_rerun(80), examples=1500, shards=4),
-            Part('chains', check, strategy=G.s_case_controlled(max_len=11, max_steps=120, nonmultiple=True), examples=2500, shards=12)]
+            Part('chains', check, strategy=s_chains(max_len=11, max_steps=120, nonmultiple=True), examples=2500, shards=12)]
